@@ -669,6 +669,19 @@ func c03GenSchema(seed int64, atoms []c03Atom) *c03Schema {
 	add(c03Field{Atom: atomBy("string"), GoName: "Payload", Column: "payload", Tag: "column:payload"})
 	n := 3 + rng.Intn(6)
 	used := map[string]bool{}
+	// one schema in four is built from plainly stored kinds only (no serializer / custom / embedded members, no default or
+	// auto-time tags): those are the schemas the map paths (Create from maps, maps read through the model) apply to
+	plainOnly := rng.Intn(4) == 0
+	if plainOnly {
+		var pa []c03Atom
+		for _, a := range atoms {
+			if !a.NoMap && !strings.Contains(a.Tag, "embedded") {
+				a.Opt = nil
+				pa = append(pa, a)
+			}
+		}
+		atoms = pa
+	}
 	type pend struct {
 		f      c03Field
 		tags   []string
@@ -1393,7 +1406,7 @@ func c03MapOK(s *c03Schema) bool {
 }
 
 func c03E2ESuite(r *Result, rng *rand.Rand, tier string) {
-	nSchemas := 150
+	nSchemas := 300
 	if tier == "thorough" {
 		nSchemas = 2500
 	}
